@@ -244,6 +244,11 @@ theorem bal_cmd (fuel : Nat) (ih : Bal fuel) : ∀ s c, (execCmd (fuel+1) s c).1
     generalize execList fuel (s.push .subshell) body = x
     obtain ⟨c1, r⟩ := x
     cases r <;> simp
+  | asyncWait body =>
+    simp only [execCmd]
+    generalize execList fuel (s.push .subshell) body = x
+    obtain ⟨c1, r⟩ := x
+    cases r <;> simp
   | ifc cond body elifs els =>
     simp only [execCmd]
     have h1 := ih.list (s.push .condition) cond
